@@ -16,7 +16,7 @@ use ark_ec::pairing::{Pairing, PairingOutput};
 use ark_ec::short_weierstrass::{self as sw, SWCurveConfig};
 use ark_ec::twisted_edwards::{self as te, TECurveConfig};
 use ark_ec::CurveConfig;
-use ark_ff::fields::{Fp64, MontBackend, MontConfig};
+use ark_ff::fields::{Fp128, Fp64, MontBackend, MontConfig};
 use ark_ff::{Field, MontFp, PrimeField, Zero};
 use ark_serialize::{CanonicalDeserialize, Compress, SerializationError, Valid, Validate};
 use num_bigint::BigUint;
@@ -168,11 +168,7 @@ fn check_curve<B: Field, S: PrimeField>(a: &[Arg], ca: &B, cb: &B, cof: &[u64]) 
     let r: BigUint = S::MODULUS.into();
     assert_eq!(u(&a[5][0]), r, "harness: subgroup order differs");
     assert_eq!(limbs_value(&arg_limbs(&a[6])), limbs_value(cof), "harness: cofactor differs");
-    assert_eq!(
-        arg_limbs(&a[6]).first().map(|x| *x == 1),
-        cof.first().map(|x| *x == 1),
-        "harness: cofactor limb 0"
-    );
+    assert_eq!(&arg_limbs(&a[6])[..], cof, "harness: cofactor limbs differ");
 }
 
 fn dump_curve<B: Field, S: PrimeField>(ca: &B, cb: &B, gx: &B, gy: &B, cof: &[u64]) -> Vec<Arg> {
@@ -184,6 +180,14 @@ fn dump_curve<B: Field, S: PrimeField>(ca: &B, cb: &B, gx: &B, gy: &B, cof: &[u6
         c[1] = <B::BasePrimeField as Field>::ONE;
         let uu: B = B::from_base_prime_field_elems(c).unwrap();
         vec![coords(&(uu * uu))[0].clone()]
+    } else if d == 3 {
+        // Fp3 = Fp[u]/(u^3 - nr)
+        let mut c = vec![<B::BasePrimeField as Zero>::zero(); 3];
+        c[1] = <B::BasePrimeField as Field>::ONE;
+        let uu: B = B::from_base_prime_field_elems(c).unwrap();
+        let cube = coords(&(uu * uu * uu));
+        assert!(cube[1] == from_u64(0) && cube[2] == from_u64(0), "harness: u^3 is not in Fp");
+        vec![cube[0].clone()]
     } else {
         vec![]
     };
@@ -362,6 +366,12 @@ mod toy {
     toyf!(C19, F19, "19", "2");
     toyf!(C31, F31, "31", "3");
     toyf!(C13, F13, "13", "2");
+    // a 71-bit prime (two limbs), p = 1 mod 3
+    #[derive(MontConfig)]
+    #[modulus = "1715547198828749693287"]
+    #[generator = "3"]
+    pub struct C71;
+    pub type F71 = Fp128<MontBackend<C71, 2>>;
 
     macro_rules! toysw {
         ($nm:ident, $fq:ident, $fr:ident, $h:expr, $hinv:tt, $a:tt, $b:tt, $gx:tt, $gy:tt) => {
@@ -370,7 +380,7 @@ mod toy {
             impl CurveConfig for $nm {
                 type BaseField = $fq;
                 type ScalarField = $fr;
-                const COFACTOR: &'static [u64] = &[$h];
+                const COFACTOR: &'static [u64] = &$h;
                 const COFACTOR_INV: $fr = MontFp!($hinv);
             }
             impl SWCurveConfig for $nm {
@@ -387,7 +397,7 @@ mod toy {
             impl CurveConfig for $nm {
                 type BaseField = $fq;
                 type ScalarField = $fr;
-                const COFACTOR: &'static [u64] = &[$h];
+                const COFACTOR: &'static [u64] = &$h;
                 const COFACTOR_INV: $fr = MontFp!($hinv);
             }
             impl TECurveConfig for $nm {
@@ -404,15 +414,25 @@ mod toy {
         };
     }
     // y^2 = x^3 + x + 17 over F_59: 58 points, r = 29, h = 2
-    toysw!(Sw100, F59, F29, 2, "15", "1", "17", "46", "7");
+    toysw!(Sw100, F59, F29, [2], "15", "1", "17", "46", "7");
     // y^2 = x^3 + 8 over F_61: 76 points, r = 19, h = 4 (COEFF_A = 0 branch; p = 1 mod 4)
-    toysw!(Sw101, F61, F19, 4, "5", "0", "8", "50", "18");
+    toysw!(Sw101, F61, F19, [4], "5", "0", "8", "50", "18");
     // y^2 = x^3 + 7 over F_43: 31 points, h = 1 (cofactor-one shortcut)
-    toysw!(Sw102, F43, F31, 1, "1", "0", "7", "2", "12");
+    toysw!(Sw102, F43, F31, [1], "1", "0", "7", "2", "12");
+    // the same three curves with the COFACTOR constant written with several limbs (zero-padded): cofactor_is_one()
+    // has to look at every limb (2 -> [2, 0]; 4 -> [4, 0, 0]; 1 -> [1, 0] and [1, 0, 0, 0] are still "one")
+    toysw!(Sw103, F59, F29, [2, 0], "15", "1", "17", "46", "7");
+    toysw!(Sw104, F61, F19, [4, 0, 0], "5", "0", "8", "50", "18");
+    toysw!(Sw105, F43, F31, [1, 0], "1", "0", "7", "2", "12");
+    toysw!(Sw106, F43, F31, [1, 0, 0, 0], "1", "0", "7", "2", "12");
+    // y^2 = x^3 + 3 over the 71-bit field (CM discriminant -3): 31 * (3 * 2^64 + 1) points, r = 31, and the cofactor
+    // 3 * 2^64 + 1 = [1, 3] has low limb 1 and a non-zero high limb (the shape of BLS12-377 G2's cofactor)
+    toysw!(Sw107, F71, F31, [1, 3], "19", "0", "3", "1279837686152009351912", "1466067233445974373867");
     // x^2 + y^2 = 1 + 10 x^2 y^2 over F_127: 124 points, r = 31, h = 4
-    toyte!(Te120, F127, F31, 4, "8", "1", "10", "65", "90");
+    toyte!(Te120, F127, F31, [4], "8", "1", "10", "65", "90");
     // -x^2 + y^2 = 1 + 40 x^2 y^2 over F_113: 104 points, r = 13, h = 8
-    toyte!(Te121, F113, F13, 8, "5", "112", "40", "108", "50");
+    toyte!(Te121, F113, F13, [8], "5", "112", "40", "108", "50");
+    toyte!(Te122, F127, F31, [4, 0], "8", "1", "10", "65", "90");
 }
 
 fn dispatch(op: &str, a: &[Arg]) -> Vec<Arg> {
@@ -467,15 +487,43 @@ fn dispatch(op: &str, a: &[Arg]) -> Vec<Arg> {
         4 => run_sw::<ark_bn254::g2::Config>(op, a),
         6 => run_sw::<ark_mnt4_298::g2::Config>(op, a),
         8 => run_sw::<ark_ed_on_bls12_381_bandersnatch::BandersnatchConfig>(op, a),
+        // every other shipped short-Weierstrass group with cofactor > 1 (default subgroup test)
+        9 => run_sw::<ark_bls12_377::g1::Config>(op, a),
+        10 => run_sw::<ark_bls12_377::g2::Config>(op, a),
+        11 => run_sw::<ark_bw6_761::g1::Config>(op, a),
+        12 => run_sw::<ark_bw6_761::g2::Config>(op, a),
+        13 => run_sw::<ark_bw6_767::g1::Config>(op, a),
+        14 => run_sw::<ark_bw6_767::g2::Config>(op, a),
+        15 => run_sw::<ark_cp6_782::g1::Config>(op, a),
+        16 => run_sw::<ark_ed_on_bls12_381::JubjubConfig>(op, a),
+        17 => run_sw::<ark_mnt4_753::g2::Config>(op, a),
+        // base field Fq3
+        40 => run_sw::<ark_mnt6_298::g2::Config>(op, a),
+        41 => run_sw::<ark_mnt6_753::g2::Config>(op, a),
+        42 => run_sw::<ark_cp6_782::g2::Config>(op, a),
         20 => run_te::<ark_ed_on_bls12_381::JubjubConfig>(op, a),
         21 => run_te::<ark_ed25519::EdwardsConfig>(op, a),
         22 => run_te::<ark_ed_on_bls12_381_bandersnatch::BandersnatchConfig>(op, a),
         23 => run_te::<ark_test_curves::ed_on_bls12_381::EdwardsConfig>(op, a),
+        24 => run_te::<ark_bls12_377::g1::Config>(op, a),
+        25 => run_te::<ark_curve25519::Curve25519Config>(op, a),
+        26 => run_te::<ark_ed_on_bls12_377::EdwardsConfig>(op, a),
+        27 => run_te::<ark_ed_on_bn254::EdwardsConfig>(op, a),
+        28 => run_te::<ark_ed_on_cp6_782::EdwardsConfig>(op, a),
+        29 => run_te::<ark_ed_on_mnt4_298::EdwardsConfig>(op, a),
+        30 => run_te::<ark_ed_on_mnt4_753::EdwardsConfig>(op, a),
+        31 => run_te::<ark_ed_on_bw6_761::EdwardsConfig>(op, a),
         100 => run_sw::<toy::Sw100>(op, a),
         101 => run_sw::<toy::Sw101>(op, a),
         102 => run_sw::<toy::Sw102>(op, a),
+        103 => run_sw::<toy::Sw103>(op, a),
+        104 => run_sw::<toy::Sw104>(op, a),
+        105 => run_sw::<toy::Sw105>(op, a),
+        106 => run_sw::<toy::Sw106>(op, a),
+        107 => run_sw::<toy::Sw107>(op, a),
         120 => run_te::<toy::Te120>(op, a),
         121 => run_te::<toy::Te121>(op, a),
+        122 => run_te::<toy::Te122>(op, a),
         _ => unsupported(),
     }
 }
